@@ -214,9 +214,9 @@ var _ table.PitEntry
 //@   requires pitEntry != nil && typeIs(pitEntry, "*table.nameTreePitEntry")
 //@   requires forallIn(0, len(nexthops), func(i int) bool { return nexthops[i] != nil })
 //@   modifies s.thread.NOutInterests, all(table.PitOutRecord), all(table.basePitEntry), verifSends, verifLastFace, verifLastToken, verifSentSet[*]
-//@   ensures [only-fib-faces] forall(func(k uint64) bool { return mapHas(verifSentSet, k) && !old(mapHas(verifSentSet, k)) ==> specIsNexthop(nexthops, len(nexthops), k) && specUsable(packet, k, inFace) })
+//@   ensures [only-fib-faces] forall(func(k uint64) bool { return mapHas(verifSentSet, k) && !old(mapHas(verifSentSet, k)) ==> existsIn(0, len(nexthops), func(i int) bool { return nexthops[i].Nexthop == k && specUsable(packet, k, inFace) }) })
 //@   ensures [all-usable] old(forall(func(k uint64) bool { return !mapHas(pitEntry.(*table.nameTreePitEntry).outRecords, k) })) ==> forallIn(0, len(nexthops), func(i int) bool { return specUsable(packet, nexthops[i].Nexthop, inFace) ==> mapHas(verifSentSet, nexthops[i].Nexthop) })
 //@   loop 1 invariant verifSends == old(verifSends)
 //@   loop 2 invariant forall(func(k uint64) bool { return old(mapHas(verifSentSet, k)) ==> mapHas(verifSentSet, k) })
-//@   loop 2 invariant forall(func(k uint64) bool { return mapHas(verifSentSet, k) && !old(mapHas(verifSentSet, k)) ==> specIsNexthop(nexthops, rangeindex+1, k) && specUsable(packet, k, inFace) })
+//@   loop 2 invariant forall(func(k uint64) bool { return mapHas(verifSentSet, k) && !old(mapHas(verifSentSet, k)) ==> existsIn(0, rangeindex+1, func(i int) bool { return nexthops[i].Nexthop == k && specUsable(packet, k, inFace) }) })
 //@   loop 2 invariant forallIn(0, rangeindex+1, func(i int) bool { return specUsable(packet, nexthops[i].Nexthop, inFace) ==> mapHas(verifSentSet, nexthops[i].Nexthop) })
